@@ -278,7 +278,7 @@ func runC02(c *Ctx, si interface{}) {
 			return
 		}
 		// the same stream delivered in 1-3 byte pieces makes the same choices
-		if ch := genOp(NewTape(TapeSpec{Mode: "choice", Seed: mix(s.Seed, "pilot"), Default: "random", Chunk: "rand3"}), rec); ch.Kind != "ok" || ch.Pw.S != p.pilot.Pw.S {
+		if ch := genOp(NewTape(TapeSpec{Mode: "choice", Seed: mix(s.Seed, "pilot"), Default: "random", Chunk: "rand3"}), rec); ch.Kind == "ok" && ch.Pw.S != p.pilot.Pw.S {
 			c.Violate("chunking-changes-result", "", "%s: the pilot stream gives %q delivered whole and %s delivered in 1-3 byte pieces", s.Cfg, p.pilot.Pw.S, ch.brief())
 			return
 		}
